@@ -33,15 +33,22 @@ neighbor 127.0.0.4 {
   api { processes [ api ]; }
   family { ipv4 unicast; ipv6 unicast; }
 }
+neighbor 127.0.0.20 {
+  router-id 1.2.3.40; local-address 127.0.0.1; local-as 650010; peer-as 650020;
+  api { processes [ api ]; }
+  family { ipv4 unicast; ipv6 unicast; }
+}
 """
+# n4: every one of its values has the corresponding value of n1 as a string prefix (a selector names whole values)
 NEIGHBORS = {
     'n1': dict(ip='127.0.0.2', **{'local-as': '65001', 'peer-as': '65002', 'router-id': '1.2.3.4'}),
     'n2': dict(ip='127.0.0.3', **{'local-as': '65001', 'peer-as': '65003', 'router-id': '1.2.3.4'}),
     'n3': dict(ip='127.0.0.4', **{'local-as': '65009', 'peer-as': '65002', 'router-id': '5.6.7.8'}),
+    'n4': dict(ip='127.0.0.20', **{'local-as': '650010', 'peer-as': '650020', 'router-id': '1.2.3.40'}),
 }
 
 # (name, v6 line, v4 line, expected terminal reply, effect on the model: (op, prefix, target set) or None)
-ALL = ('n1', 'n2', 'n3')
+ALL = ('n1', 'n2', 'n3', 'n4')
 COMMANDS = [
     ('annA', 'peer * announce route 10.1.0.0/24 next-hop 2.2.2.2', 'announce route 10.1.0.0/24 next-hop 2.2.2.2', 'done', ('add', '10.1.0.0/24', ALL)),
     ('wdrA', 'peer * withdraw route 10.1.0.0/24', 'withdraw route 10.1.0.0/24', 'done', ('del', '10.1.0.0/24', ALL)),
@@ -164,11 +171,12 @@ def run_sequence(args):
 # selectors
 # ------------------------------------------------------------------------------------------------
 TERM_VALUES = {
-    'local-as': ['65001', '65009', '64999'],
-    'peer-as': ['65002', '65003', '64999'],
-    'router-id': ['1.2.3.4', '5.6.7.8', '9.9.9.9'],
+    # two values in use, one that is only the beginning of values in use (matches nobody), one of n4
+    'local-as': ['65001', '65009', '6500', '650010'],
+    'peer-as': ['65002', '65003', '6500', '650020'],
+    'router-id': ['1.2.3.4', '5.6.7.8', '1.2.3', '1.2.3.40'],
 }
-IPS = ['*', '127.0.0.2', '127.0.0.3', '127.0.0.4', '127.0.0.9']
+IPS = ['*', '127.0.0.2', '127.0.0.3', '127.0.0.4', '127.0.0.20', '127.0.0', '127.0.0.9']
 
 
 def selectors():
@@ -265,7 +273,7 @@ def run(ctx: core.Ctx) -> None:
     jobs = plan(ctx.tier)
     sels = selector_cases(ctx.tier)
     ctx.rule = (f'(A) every sequence of <= 2 commands (quick: 1 in 9 of the length-3 ones, thorough: all) over {len(COMMANDS)} commands (announce/withdraw to all or one peer, IPv6, out-of-range value, bad mask, missing next hop, unknown verb, no matching peer, eor, flush, ping), API v6 and v4 syntax; '
-                'every single cut (thorough: every pair of cuts) and byte-by-byte delivery for 4 two-command streams; (B) every selector: 5 address forms x every subset of {local-as, peer-as, router-id} x 3 values each, plain and bracket form, and bracket lists of two; '
+                'every single cut (thorough: every pair of cuts) and byte-by-byte delivery for 4 two-command streams; (B) every selector: 7 address forms (one a truncated address, one neighbor whose every value extends another neighbor's) x every subset of {local-as, peer-as, router-id} x 4 values each (one only the beginning of values in use), plain and bracket form, and bracket lists of two; '
                 'non-trivial = distinct (reply sequence, final RIBs) outcome')
     ctx.assumptions += ['reference model: one terminal reply per command in order; refused commands change nothing; a selector matches a neighbor iff its address matches (or *) and every term equals the neighbor setting']
     pool = mp.Pool(min(16, os.cpu_count() or 1))
